@@ -50,13 +50,13 @@ check("C18",
  "DESIGN.md 4.6")
 
 check("C12",
- "Seeded search over (a) histories on reused Parser/MapfileToDict/PrettyPrinter/Validator objects, each operation compared with brand-new objects in a pristine forked process, with and without I/O faults injected at the k-th schema/grammar/mapfile open or read and bounded recovery asserted one step after the last fault; (b) real threads on the module-level API under a deterministic scheduler that pre-empts at source-line granularity (random walk / PCT / starvation), each call compared with the same call run alone in a pristine process; (c) argument purity around every call. A few hundred runs per quick invocation, ~10^5 in thorough; sampling evidence over histories x schedules x fault placements.",
+ "Seeded search over (a) histories on reused Parser/MapfileToDict/PrettyPrinter/Validator objects, each operation compared with brand-new objects in a pristine forked process, with and without I/O faults injected at the k-th schema/grammar/mapfile open or read and bounded recovery asserted one step after the last fault; (b) real threads on the module-level API under a deterministic scheduler that pre-empts at source-line granularity (random walk / PCT / starvation / fine_start / entry_sync call-boundary barrier), optionally with I/O faults armed during the threaded pass, each call compared with the same call run alone in a pristine process; (c) argument purity around every call. A few hundred runs per quick invocation, ~10^5 in thorough; sampling evidence over histories x schedules x fault placements.",
  "Trusts sys.monitoring LINE events as the complete set of pre-emption points that matter under the GIL, the in-memory file system's fidelity to the real one for open/read/write/close of regular files, and freeze() as the notion of 'same result'. Thread safety of one worker object shared between threads is not promised and not exercised.",
  "deterministic simulation: seeded thread schedules (baton-passing real threads, sys.monitoring pre-emption), crash-point I/O fault injection, reused-vs-pristine relational oracle, minimised schedule+fault replay files",
  "DESIGN.md 4.1")
 
 check("C15",
- "Seeded search over simulated worlds: include trees of files (fan-out <= 4, depth 0-7, nested directories, relative/absolute, quoted/unquoted, comments, LF/CRLF), cycles, missing files, directories in place of files, one-shot EIO/EACCES injected at the k-th include open or read, repairs between calls, decoy files under the working directory, loaded through open / load / loads / a reused Parser with the simulated working directory unrelated to the tree and changing between calls. Oracle: a 20-line flatten() model written from the statement - result equals loads(substituted text), error kind, exact open sequence (fail-stop, depth-first, root-relative), nothing written, every handle closed, directives kept as data and printed back under expand_includes=False. ~2000 worlds per quick run; sampling evidence over trees x fault placements x call histories.",
+ "Seeded search over simulated worlds: include trees of files (fan-out <= 4, depth 0-7, nested directories, relative/absolute, quoted/unquoted, comments, LF/CRLF), cycles, missing files, directories in place of files, one-shot EIO/EACCES injected at the k-th include open or read, repairs between calls, decoy files under the working directory, loaded through open / load / loads / a reused Parser with the simulated working directory unrelated to the tree and changing between calls. Oracle: a 20-line flatten() model written from the statement - result equals loads(substituted text), error kind, open sequence equal to the model's by first occurrence of each path (fail-stop, depth-first, root-relative, never more opens than the model, a per-call memo of include files is tolerated), nothing written, every handle closed, directives kept as data and printed back under expand_includes=False. ~2000 worlds per quick run; sampling evidence over trees x fault placements x call histories.",
  "Trusts the flatten() model, and the in-memory file system / os.getcwd / os.stat seam (its fidelity is re-checked against a real tmpfs directory in pristine forks for 3-10% of fault-free worlds). The exception class for too-deep/cyclic inclusion is not pinned; any prefix of the model's open sequence is accepted there.",
  "deterministic simulation: simulated file tree + working directory with crash-point I/O fault injection, seeded world/history search, reference model (textual substitution), minimised replay files",
  "DESIGN.md 4.3")
